@@ -34,6 +34,9 @@ pub struct Opts {
     /// how the step is driven: 0 step_in, 1 run_with_limit(1), 2 step_over, 3 step_out,
     /// 4 run_with_limit(1) with one PC breakpoint (C13)
     pub mode: u8,
+    /// C12: the simulator runs with real traps, the model with virtual traps; steps that neither halt
+    /// nor fault under virtual traps must be identical
+    pub a_c12: bool,
     /// install the default internal-register mappings (PSR at xFFFC, MCR at xFFFE) before the step
     pub iregs: bool,
     /// C27(b): run with debug frames on (from an empty frame list) and check the frame pushed
@@ -43,7 +46,7 @@ pub struct Opts {
 pub const BASE: Opts = Opts {
     class: 0, strict: Some(false), real_traps: None, ignore_priv: None, alloca: 0, user: false, all_init: false,
     a_arch: false, a_mem: false, a_calls: false, a_depth: false, a_obs: false, a_c09: false, a_c14: false,
-    a_no_strict_err: false, prefetch_pc: false, mode: 0, iregs: false, debug_frames: false,
+    a_no_strict_err: false, prefetch_pc: false, mode: 0, a_c12: false, iregs: false, debug_frames: false,
 };
 
 fn all_init_state(sim: &lc3_ensemble::sim::Simulator) {
@@ -96,7 +99,11 @@ pub fn run(o: Opts) {
         nd::assume(before_k.is_init());
     }
     let model_strict = if o.a_c14 { Some(false) } else { None };
-    let e = predict_full(&mut sim, script, model_strict, o.all_init, o.iregs);
+    let e = predict_rt(&mut sim, script, model_strict, o.all_init, o.iregs, if o.a_c12 { Some(false) } else { None });
+    if o.a_c12 {
+        // the step is an ordinary one under virtual traps: no HALT, no error
+        nd::assume(e.code == R_OK && !e.halted);
+    }
     let pre_irun = sim.instructions_run;
     let pre_depth = sim.frame_stack.len();
     let bp_pc: u16 = nd::any();
@@ -161,6 +168,10 @@ pub fn run(o: Opts) {
     }
     if o.a_arch {
         assert_arch(&sim, &e, got);
+    }
+    if o.a_c12 {
+        crate::nd_cover!(e.frame_push.is_some(), "[c12] TRAP / interrupt entry agrees");
+        crate::nd_cover!(e.neff > 0, "[c12] store agrees");
     }
     if o.iregs {
         assert!(sim.mcr().load(std::sync::atomic::Ordering::Relaxed) == e.mcr, "MCR differs from the model");
